@@ -103,6 +103,7 @@ class PartitionWellFormed(Contract):
     max_paths = 50
 
     def instances(self, tier):
+        import os
         out = []
         for prog in [*D.PROGRAMS, *D.EXTRA_VALID_PROGRAMS]:
             for size in SIZES:
@@ -112,6 +113,14 @@ class PartitionWellFormed(Contract):
                         continue
                     out.append(dict(label=f"{prog};ranks={size};{st}",
                                     prog=prog, size=size, staple=st))
+        # seeded random programs: 0..6 messages on 2..4 ranks
+        base = int(os.environ.get("VERIF_SEED", "1") or 1) * 1000
+        k = 40 if tier != "thorough" else 400
+        for i in range(k):
+            size = (2, 3, 4)[i % 3]
+            st = ("chain", "siblings")[(i // 3) % 2]
+            out.append(dict(label=f"random{base + i};ranks={size};{st}",
+                            prog=f"random{base + i}", size=size, staple=st))
         return out
 
     def canaries(self, tier):
